@@ -182,6 +182,57 @@ def run(ctx):
         v = A.peel(e[2][1])
         ok = (v[0] == "call" and (v[1] == LB + "::new" or v[1].endswith("::unwrap") and bool(A.calls_in(v, lambda n_: n_.endswith("TryFrom>::try_from") or n_ == TRYFROM))))
         ctx.check(ok, "C16.4", "wire:label-source#%d" % n, "labels come from Label::new() / Label::try_from(..)", "a label is pushed from %s" % A.show(v), wd.loc(b))
+    # the wire form ends a name with the zero-length label, and only with it: (1) a label read from the wire is pushed
+    # only when its length octet is not 0, the empty label only when it is 0; (2) the decoding loop is left either right
+    # after the root label, or because the length already exceeds the limit (the final test then fails), or to an error
+    wloops = [(h_, bd_) for h_, bd_ in wd.loops() if any(wd.term(x)["k"] == "call" and (wd.term(x).get("callee") or "").endswith("next_u8") for x in bd_)]
+    ctx.check(len(wloops) == 1, "C16.3", "wire:decode-loop", "one label loop in the wire decoder", "%d label loops" % len(wloops), wd.loc())
+    root_pushes, body_pushes = [], []
+    for b, t in pushes:
+        v = A.peel(wr.call_expr(t, b)[2][1])
+        (root_pushes if v[0] == "call" and v[1] == LB + "::new" else body_pushes).append(b)
+    def size_is(fc, zero):
+        """fact about the length octet read by next_u8: == 0 / != 0"""
+        def is_size(x):
+            return any(y[0] == "call" and y[1].endswith("next_u8") for y in A.walk(x))
+        if fc[0] in ("inteq", "intne") and fc[2] == 0 and is_size(fc[1]):
+            return (fc[0] == "inteq") == zero
+        if fc[0] == "cmp":
+            for op, x, y in ((fc[1], fc[2], fc[3]), (A.SWAP[fc[1]], fc[3], fc[2])):
+                py = A.peel(y)
+                if is_size(x) and py[0] == "const" and py[2] == 0:
+                    return (op == "Eq") if zero else (op in ("Ne", "Gt"))
+        return False
+    for b in root_pushes:
+        ctx.check(wc.guarded(b, lambda fc: size_is(fc, True))[0], "C16.3", "wire:root-iff-zero", "the empty label is pushed only for a zero length octet",
+                  "the root label is recognised by something other than a zero length octet", wd.loc(b))
+    for n, b in enumerate(body_pushes):
+        ctx.check(wc.guarded(b, lambda fc: size_is(fc, False))[0], "C16.3", "wire:label-nonempty#%d" % n, "a label read from the wire is pushed only when its length octet is not 0",
+                  "a zero-length label can be pushed in the middle of a name (the name does not end there)", wd.loc(b))
+    ctx.check(bool(root_pushes) and bool(body_pushes), "C16.3", "wire:label-pushes", "found the root push and the label push", "label pushes not found", wd.loc())
+    if len(wloops) == 1:
+        h_, bd_ = wloops[0]
+        oks_ = [b for b, e in A.return_exprs(wd, wr) if A.peel(e)[0] == "agg" and A.peel(e)[2] == "Ok"]
+        def too_long(fc):
+            if fc[0] != "cmp":
+                return False
+            for op, x, y in ((fc[1], fc[2], fc[3]), (A.SWAP[fc[1]], fc[3], fc[2])):
+                if op == "Gt" and is_const("DOMAINNAME_MAX_LEN")(y):
+                    return True
+            return False
+        n_exit = 0
+        for a in sorted(bd_):
+            for s_ in wd.succs(a):
+                if s_ in bd_ or wd.term(s_)["k"] == "unreachable":
+                    continue
+                n_exit += 1
+                after_root = any(a == rb or (wd.dominates(rb, a) and a in wd.reachable(rb, removed_blocks=[h_])) for rb in root_pushes) \
+                    or not any(ob in wd.reachable(s_, removed_blocks=root_pushes) for ob in oks_)      # ... or the root label is pushed on the way out
+                long_ = any(too_long(fc) for fc in wc.edge_facts(a, s_)) or wc.guarded(a, too_long)[0] and not after_root and False
+                err_only = not any(ob in A.reachable_tagged(wd, s_) for ob in oks_)
+                ctx.check(after_root or long_ or err_only, "C16.3", "wire:loop-exit#%d" % n_exit, "the loop is left after the root label, on overflow of the length limit, or to an error",
+                          "the label loop can be left before the root label was read and still produce a name", wd.loc(a))
+        ctx.floor("C16.3", "exits of the label loop", n_exit, 2)
     rd = prog.fn(DN + "::root_domain")
     rdr = A.Resolver(rd)
     for b, i, st in A.aggregates(rd, DN):
